@@ -222,7 +222,10 @@ def run(pid):
     vlib.build_harness()
     thorough = vlib.tier() == "thorough"
     if pid == "C03":
-        scens, r = scenarios_c03(rng, 120 if thorough else 16, 30 if thorough else 22, 0 if thorough else 110, thorough)
+        # (thorough: all images x all byte prefixes of 120 histories was ~2 M recoveries and did not finish; a seeded sample of
+        # 1200 images per history drawn from all call boundaries and all byte prefixes does, and the mechanism-model part
+        # below recovers EVERY image of its histories)
+        scens, r = scenarios_c03(rng, 40 if thorough else 16, 30 if thorough else 22, 1200 if thorough else 110, thorough)
         rep.cov["states"], rep.cov["transitions"] = max(1, r.distinct), max(1, r.states)
     elif pid == "C09X":
         scens, r = scenarios_c09(rng, 60 if thorough else 12, 14, 0 if thorough else 120, thorough)
@@ -252,10 +255,10 @@ def run(pid):
         v2, k2, _ = run_crash(rep, [sc], "fx")
         for what, obj in v2:
             rep.violation("witness of a repaired defect fails again: " + what, obj)
-    rep.cov["exhaustive"] = thorough
+    rep.cov["exhaustive"] = False
     rep.cov["distinct_nontrivial"] = rep.cov.get("crash_images", 0)
     rep.cov["rule"] = ("every file-system call boundary of the traced child (strace) and byte prefixes of appended / overwritten regions (all prefixes for writes <= 48 B, record-boundary and seeded cuts for larger ones; "
-                       "all prefixes in the thorough tier); quick tier: a seeded sample of images per scenario; each image is opened by the real OpenStore, every key read, then a continuation "
+                       "all prefixes are candidates in the thorough tier); a seeded sample of images per scenario (110 quick, 1200 thorough), and EVERY image of the final commit of every crash history of StoreCrash.tla; each image is opened by the real OpenStore, every key read, then a continuation "
                        "(writes, flush, 2 primary-GC cycles with threshold 0, index GC, reopen by rescan) is executed; distinct = images, non-trivial = all (an image is a distinct on-disk state)")
     rep.assumptions = ["TLC + Json module", "strace reports every traced call of the child in order (the reconstructed final image is asserted byte-identical to the real directory)",
                        "a process crash loses nothing that a completed system call wrote (no fsync modelling); torn writes are prefixes of one write call",
